@@ -103,4 +103,64 @@ example :
     C12.proper false c = true ∧ C12.frameInfo c = some (false, 640, 360) := by
   decide +kernel
 
+/-! ### `FlexibleMode` set by hand between frames -/
+
+/-- `c12_rt` generalised to per-call flags.  `VP9Payloader.FlexibleMode` is an exported field; for
+    EVERY injected initial picture id and EVERY history of (flag, (MTU, frame, header description))
+    pairs — the caller sets the field to `flag` before the call — the payloader's output fed to one
+    VP9Packet receiver satisfies the round-trip predicate the harness evaluates on the real code:
+    every frame inside the property's domain for the mode of ITS call (`proper flag call`) comes
+    back losslessly with B on the first and E on the last packet only, F = flag, and the 15-bit
+    picture id `(init mod 2^15 + call index) mod 2^15`, which runs on across the changes of mode;
+    a frame sent with the flag off has P = "not a key frame" on every packet and, if it is a key
+    frame, the scalability structure with the coded width and height on its first packet —
+    whatever the mode of the frames before it was. -/
+theorem c12_rt_flip (init : UInt16) (calls : List (Bool × C12.Call)) :
+    C12.rtFlip init calls (C12.obsRtFlip init calls) = true :=
+  Proofs.VP9.rtFlip_obsRtFlip init calls (fun fc _ _ => c12_hdrFacts fc.2)
+
+/-- the same from EVERY state a used payloader can be in (any earlier `FlexibleMode`, any running
+    picture id below 2^15 — `Payload` keeps it there, `vp9_new_pid`) and every receiver state -/
+theorem c12_rt_flip_from (flex0 : Bool) (init : UInt16) (pid : Nat) (hp : pid < 32768) (p : VP9Packet)
+    (calls : List (Bool × C12.Call)) :
+    C12.rtFlipFrom pid calls
+      (C12.obsRtFlipFrom { flexible := flex0, init := init, pictureID := pid.toUInt16, initialized := true }
+        p calls) = true :=
+  Proofs.VP9.rtFlip_from init calls flex0 pid p hp (fun fc _ _ => c12_hdrFacts fc.2)
+
+/-- `c12_rt` is the instance of `c12_rt_flip` in which the flag never changes: predicate and model
+    observation of a per-history mode are those of the per-call form on the constant flag list -/
+theorem c12_rt_is_flip_const (flex : Bool) (init : UInt16) (calls : List C12.Call) (o : List (List C12.FragObs)) :
+    C12.rt flex init calls o = C12.rtFlip init (calls.map (fun c => (flex, c))) o ∧
+    C12.obsRt flex init calls = C12.obsRtFlip init (calls.map (fun c => (flex, c))) := by
+  constructor
+  · unfold C12.rt C12.rtFlip
+    exact (Proofs.VP9.rtFlipFrom_const flex calls _ o).symm
+  · unfold C12.obsRt C12.obsRtFlip
+    exact (Proofs.VP9.obsRtFlipFrom_const flex calls { flexible := false, init := init } {}).symm
+
+/-- non-vacuity: start id 0x7FFE; a frame in flexible mode, the field cleared, a described non-key
+    frame and a described 640×360 key frame in non-flexible mode, the field set again, one more
+    frame.  All four calls are `proper` for their mode; the packets carry F/P = (1,0) (0,1) (0,0)
+    (1,0), ids 0x7FFE, 0x7FFF, 0, 1, and the key frame's first packet the 640×360 structure. -/
+example :
+    let nk : Hdr := .nonKey 0 true false
+    let key : Hdr := .key 0 true false { space := 1, range := false } 640 360
+    let calls : List (Bool × C12.Call) :=
+      [(true, { mtu := 5, frame := some [1, 2, 3], desc := none }),
+       (false, { mtu := 5, frame := some (nk.encode [] ++ [7, 8]), desc := some nk }),
+       (false, { mtu := 14, frame := some (key.encode [] ++ [9]), desc := some key }),
+       (true, { mtu := 5, frame := some [4], desc := none })]
+    calls.all (fun fc => C12.proper fc.1 fc.2) = true ∧
+    (C12.obsRtFlip 0x7FFE calls).map (·.map (·.bytes)) =
+      [[[0x98, 0xFF, 0xFE, 1, 2], [0x94, 0xFF, 0xFE, 3]],
+       [[0xC9, 0xFF, 0xFF, 0x86, 7], [0xC5, 0xFF, 0xFF, 8]],
+       [[0x8B, 0x80, 0x00, 0x18, 0x02, 0x80, 0x01, 0x68, 0x01, 0x14, 0x01, 0x82, 0x49, 0x83],
+        [0x85, 0x80, 0x00, 0x42, 0x20, 0x27, 0xF0, 0x16, 0x70, 9]],
+       [[0x9C, 0x80, 0x01, 4]]] ∧
+    (C12.obsRtFlip 0x7FFE calls).map (·.map (fun f => (f.md.F, f.md.P, f.md.PictureID))) =
+      [[(true, false, 0x7FFE), (true, false, 0x7FFE)], [(false, true, 0x7FFF), (false, true, 0x7FFF)],
+       [(false, false, 0), (false, false, 0)], [(true, false, 1)]] := by
+  decide +kernel
+
 end Rtp.Props.C12
